@@ -8,7 +8,7 @@ use regex::Regex;
 
 use fnv::FnvHasher;
 
-use chrono::{Local, Datelike, Timelike, DurationRound, Duration, TimeZone};
+use chrono::{Local, Datelike, Timelike, DurationRound, Duration, TimeZone, NaiveDate};
 
 use itertools::Itertools;
 
@@ -484,34 +484,21 @@ impl<'a, T: ColumnProvider> ExpressionExecutionEngine<'a, T> {
                                         let trunc_timestamp = timestamp.duration_trunc(duration).map_err(|_| EvaluationError::FailedToTruncate)?;
                                         Ok(Value::Timestamp(trunc_timestamp))
                                     }
-                                    Err(NonDurationField::Year) => {
-                                        // The local start of the year may not exist (DST gap): an error, not a panic
-                                        let trunc_timestamp = timestamp
-                                            .with_month(1)
-                                            .and_then(|timestamp| timestamp.with_day(1))
-                                            .and_then(|timestamp| timestamp.with_hour(0))
-                                            .and_then(|timestamp| timestamp.with_minute(0))
-                                            .and_then(|timestamp| timestamp.with_second(0))
-                                            .and_then(|timestamp| timestamp.with_nanosecond(0))
-                                            .ok_or(EvaluationError::FailedToTruncate)?;
-                                        Ok(Value::Timestamp(trunc_timestamp))
-                                    }
-                                    Err(NonDurationField::Month) => {
-                                        let trunc_timestamp = timestamp
-                                            .with_day(1)
-                                            .and_then(|timestamp| timestamp.with_hour(0))
-                                            .and_then(|timestamp| timestamp.with_minute(0))
-                                            .and_then(|timestamp| timestamp.with_second(0))
-                                            .and_then(|timestamp| timestamp.with_nanosecond(0))
-                                            .ok_or(EvaluationError::FailedToTruncate)?;
-                                        Ok(Value::Timestamp(trunc_timestamp))
-                                    }
-                                    Err(NonDurationField::Day) => {
-                                        let trunc_timestamp = timestamp
-                                            .with_hour(0)
-                                            .and_then(|timestamp| timestamp.with_minute(0))
-                                            .and_then(|timestamp| timestamp.with_second(0))
-                                            .and_then(|timestamp| timestamp.with_nanosecond(0))
+                                    Err(field) => {
+                                        // The local start of the period is computed from the date alone: stepping through
+                                        // intermediate local times (the same clock time on the first day, hour 0 of the same
+                                        // minute) fails when one of those falls into a DST gap although the start exists.
+                                        // If the start itself does not exist it is an error, not a panic.
+                                        let date = timestamp.date_naive();
+                                        let start_date = match field {
+                                            NonDurationField::Year => NaiveDate::from_ymd_opt(date.year(), 1, 1),
+                                            NonDurationField::Month => NaiveDate::from_ymd_opt(date.year(), date.month(), 1),
+                                            NonDurationField::Day => Some(date)
+                                        };
+
+                                        let trunc_timestamp = start_date
+                                            .and_then(|date| date.and_hms_opt(0, 0, 0))
+                                            .and_then(|start| Local.from_local_datetime(&start).earliest())
                                             .ok_or(EvaluationError::FailedToTruncate)?;
                                         Ok(Value::Timestamp(trunc_timestamp))
                                     }
